@@ -267,6 +267,45 @@ def run(ctx):
                 raise ValueError("injected fault")
         transform._do_a_transform(None, 1, lambda: None, do_one, parallel=2)
     real_fault_run(ctx, "walk", real_walk)
+
+    # the same entry points a second time in ONE process, after an earlier parallel operation of that process has already failed
+    # (a notebook retrying, a driver moving on to the next data set): the second failure must be reported like the first
+    def real_twice():
+        for first in (real_leaves, real_transform):
+            try:
+                first()
+                return "the FIRST failing operation returned normally"
+            except Exception:  # noqa
+                pass
+        real_leaves()          # must raise (run_guarded turns a normal return into "returned")
+    real_fault_run(ctx, "second-failure-in-one-process", real_twice)
+    # ... and under `python -O` (assert statements compiled away)
+    import subprocess
+    import sys as _sys
+    from lib.repo import REPO as _REPO
+    code = ("import sys\n"
+            "from toasty import transform\n"
+            "def do_one(buf, pos, pio_in, pio_out):\n"
+            "    if tuple(pos) == (1, 0, 1):\n"
+            "        raise ValueError('injected fault')\n"
+            "try:\n"
+            "    transform._do_a_transform(None, 1, lambda: None, do_one, parallel=2)\n"
+            "    print('RETURNED')\n"
+            "except BaseException as e:\n"
+            "    print('RAISED', type(e).__name__)\n")
+    try:
+        r = subprocess.run([_sys.executable, "-O", "-c", code], env=dict(os.environ, PYTHONPATH=_REPO, PYTHONOPTIMIZE="1"), stdout=subprocess.PIPE,
+                           stderr=subprocess.DEVNULL, text=True, timeout=90)
+        outp = r.stdout.strip().splitlines()[-1] if r.stdout.strip() else "no output (exit status %s)" % r.returncode
+    except subprocess.TimeoutExpired:
+        outp = "TIMEOUT"
+    ctx.count()
+    ctx.distinct(("real-fault", "transform-python-O"))
+    if outp == "TIMEOUT":
+        ctx.violation("C19:transform:hang-real-optimised", "parallel transform with a raising callback under `python -O` did not end within 90 s", {"entry": "transform", "python": "-O"})
+    elif not outp.startswith("RAISED"):
+        ctx.violation("C19:transform:swallowed-real-optimised", "parallel transform with a raising callback under `python -O` (assert statements compiled away): %s" % outp,
+                      {"entry": "transform", "python": "-O"})
     if not q:
         real_fault_run(ctx, "visit_leaves", real_leaves)
         real_fault_run(ctx, "transform", real_transform)
